@@ -432,6 +432,11 @@ def run(prog, R):
         ng = sorted(normalise_names(g) for g in got)
         nw = sorted(normalise_names(x) for x in w)
         ok = ng == nw
+        how_ok = ''
+        if not ok and ng and not any('<?' in g for g in ng) and lang_equal(ng, nw):
+            # written in another arrangement of loops and pieces, but the same set of byte / value sequences
+            ok = True
+            how_ok = '   (same language as the expected template)'
         # a verdict needs a template in the vocabulary of the format definition: holes the definition does not
         # know (an iteration idiom the engine cannot name, an unresolved write) mean "not judged", not "wrong"
         vocab = set(re.findall(r'\{([^{}]*)\}', ' '.join(nw)))
@@ -439,9 +444,28 @@ def run(prog, R):
         foreign = sorted(h for h in holes if h not in vocab) + (['<?>'] if any('<?' in g for g in ng) else [])
         if any('<?std::io::Write::' in g for g in ng):
             foreign = []      # a Write method other than write_all (write, write_vectored: partial writes): recognised, and wrong
+        # writes made by closures handed to a generic helper (`write_record(writer, |w| .., |w| ..)` calling `head(&mut writer)`):
+        # the engine does not follow calls of function parameters
+        if not ok and not foreign:
+            seen_b = set()
+            work_b = [b]
+            indirect = False
+            while work_b and len(seen_b) < 12:
+                q = work_b.pop()
+                if q.path in seen_b:
+                    continue
+                seen_b.add(q.path)
+                for _, t_ in q.calls():
+                    if t_.callee is None or t_.callee.path in ('std::ops::FnOnce::call_once', 'std::ops::FnMut::call_mut', 'std::ops::Fn::call'):
+                        indirect = True
+                    cb_ = prog.local_callee_body(t_.callee) if t_.callee else None
+                    if cb_ is not None:
+                        work_b.append(cb_)
+            if indirect and len(' '.join(ng)) < len(' '.join(nw)):
+                foreign = ['<a call of a function parameter>']
         rid = 'TPL-2' if key == 'fastq::Record::write' else 'TPL-1'
         R.add(rid, b, 'template', ok, site(b, b.span['lo']), 'writes  %s   expected  %s%s' % ('  ||  '.join(got), '  ||  '.join(w),
-              ('   (not judged: the written values %s are outside the vocabulary of the format template)' % foreign) if (foreign and not ok) else ''),
+              (('   (not judged: the written values %s are outside the vocabulary of the format template)' % foreign) if (foreign and not ok) else '') + how_ok),
               undecided=(not ok) and bool(foreign))
     R.floor('TPL-1', 15)
     # ---- TPL-3
@@ -450,6 +474,152 @@ def run(prog, R):
     tpl4(prog, R)
     R.rule('TPL-5', 'the optional description (and its separating space) is written exactly when the desc argument is Some')
     tpl5(prog, R)
+
+
+# ---- templates as regular languages: two writers are the same when they can emit the same sequences of
+# (byte | value-hole) symbols, however the loops are arranged:  seq ("\n" seq)* "\n"  =  (seq "\n")+
+def _tpl_tokens(s):
+    out = []
+    i = 0
+    while i < len(s):
+        ch = s[i]
+        if ch.isspace():
+            i += 1
+        elif ch == '"':
+            j = i + 1
+            lit = []
+            while j < len(s) and s[j] != '"':
+                if s[j] == '\\' and j + 1 < len(s):
+                    if s[j + 1] == 'x' and j + 3 < len(s):
+                        lit.append('\\' + s[j + 1:j + 4])
+                        j += 4
+                    else:
+                        lit.append(s[j:j + 2])
+                        j += 2
+                else:
+                    lit.append(s[j])
+                    j += 1
+            out += [('sym', 'b:' + c) for c in lit]
+            i = j + 1
+        elif ch == '{':
+            j = s.index('}', i)
+            out.append(('sym', 'h:' + s[i + 1:j].strip()))
+            i = j + 1
+        elif s.startswith(')*', i):
+            out.append((')*',))
+            i += 2
+        elif ch in '()|':
+            out.append((ch,))
+            i += 1
+        elif ch == '<':
+            j = s.index('>', i)
+            out.append(('sym', 'u:' + s[i:j + 1]))
+            i = j + 1
+        else:
+            raise ValueError('template syntax: %r at %d' % (s, i))
+    return out
+
+
+def _tpl_nfa(alts):
+    """Thompson construction for a list of alternative template strings -> (start, accept, eps, delta)"""
+    eps = {}
+    delta = {}
+    cnt = [0]
+
+    def new():
+        cnt[0] += 1
+        return cnt[0]
+
+    def add_eps(a, b):
+        eps.setdefault(a, set()).add(b)
+
+    def parse_seq(toks, i):
+        # sequence until '|', ')', ')*' or end -> (start, end, i)
+        st = new()
+        cur = st
+        while i < len(toks) and toks[i][0] not in ('|', ')', ')*'):
+            t = toks[i]
+            if t[0] == 'sym':
+                nx = new()
+                delta.setdefault((cur, t[1]), set()).add(nx)
+                cur = nx
+                i += 1
+            elif t[0] == '(':
+                gs, ge, i = parse_alt(toks, i + 1)
+                star = i < len(toks) and toks[i][0] == ')*'
+                i += 1
+                add_eps(cur, gs)
+                nx = new()
+                add_eps(ge, nx)
+                if star:
+                    add_eps(ge, gs)
+                    add_eps(cur, nx)
+                cur = nx
+            else:
+                raise ValueError('template syntax')
+        return st, cur, i
+
+    def parse_alt(toks, i):
+        st, en = new(), new()
+        while True:
+            a, b_, i = parse_seq(toks, i)
+            add_eps(st, a)
+            add_eps(b_, en)
+            if i < len(toks) and toks[i][0] == '|':
+                i += 1
+                continue
+            return st, en, i
+    S, A = new(), new()
+    for a in alts:
+        toks = _tpl_tokens(a)
+        st, en, i = parse_alt(toks, 0)
+        if i != len(toks):
+            raise ValueError('template syntax')
+        add_eps(S, st)
+        add_eps(en, A)
+    return S, A, eps, delta
+
+
+def lang_equal(alts1, alts2):
+    try:
+        n1, n2 = _tpl_nfa(alts1), _tpl_nfa(alts2)
+    except (ValueError, IndexError):
+        return False
+
+    def closure(n, states):
+        S, A, eps, delta = n
+        out = set(states)
+        work = list(states)
+        while work:
+            q = work.pop()
+            for r in eps.get(q, ()):
+                if r not in out:
+                    out.add(r)
+                    work.append(r)
+        return frozenset(out)
+
+    def step(n, states, sym):
+        S, A, eps, delta = n
+        nx = set()
+        for q in states:
+            nx |= delta.get((q, sym), set())
+        return closure(n, nx)
+    alphabet = set(sym for (_, sym) in list(n1[3]) + list(n2[3]))
+    start = (closure(n1, {n1[0]}), closure(n2, {n2[0]}))
+    seen = {start}
+    work = [start]
+    while work:
+        a, b_ = work.pop()
+        if (n1[1] in a) != (n2[1] in b_):
+            return False
+        for sym in alphabet:
+            nx = (step(n1, a, sym), step(n2, b_, sym))
+            if nx not in seen:
+                if len(seen) > 20000:
+                    return False
+                seen.add(nx)
+                work.append(nx)
+    return True
 
 
 def normalise_names(s):
@@ -602,7 +772,15 @@ def tpl4(prog, R):
                     helper_end = bool(hi_r) and all(q[0] == 'call' and prog.local_callee_body(q[1].callee) is not None for q in hi_r)
                 except NameError:
                     helper_end = False
-            R.add('TPL-4', b, 'extent-and-terminator', start_ok and end_ok and cond_ok, site(b, data[0][1].line), undecided=(start_ok and cond_ok and not end_ok and helper_end), detail=
+            # the whole piece is handed out by a private function (`self.buf_pos.raw_record(self.buffer)`): its extent is not visible here
+            helper_slice = False
+            try:
+                rs_d = roots_of(b, data[0][1].args[1], du, through_calls=lambda c: 0 if c and c.path in IDENTITY_CALLS else None)
+                helper_slice = bool(rs_d) and all(q[0] == 'call' and prog.local_callee_body(q[1].callee) is not None for q in rs_d)
+            except Exception:
+                pass
+            R.add('TPL-4', b, 'extent-and-terminator', start_ok and end_ok and cond_ok, site(b, data[0][1].line), undecided=(start_ok and cond_ok and not end_ok and helper_end) or (helper_slice and cond_ok and not start_ok), detail=
+                  ('the record bytes come from a private function (extent not judged here); ' if helper_slice and not start_ok else '') +
                   'writes %s then %s"\\n": start at record start %s, end at last line end %s, terminator rule %s' % (desc, '' if fmt == 'fastq' else 'conditionally ', start_ok, end_ok, cond_ok))
         elif not data and not nl and not others:
             # the writes happen in private helpers: fall back to the interprocedural template of the function
@@ -619,8 +797,11 @@ def tpl4(prog, R):
                   'writes through private helpers; template of the function: %s (required: one slice of the buffer, then LF%s); the extent of the slice is not visible here and not judged' % (
                       ' || '.join(Tpl.show(t) for t in tps), '' if fmt == 'fastq' else ' unless it ends with one'), undecided=okt or unk)
         else:
+            # part of the writing is done by a closure of the function (`write_all(data).and_then(|()| writer.write_all(b"\n"))`)
+            in_closures = any(t_.callee and t_.callee.path.startswith('std::io::Write::') for cb_ in prog.closures_of(b) for _, t_ in cb_.calls())
             R.add('TPL-4', b, 'extent-and-terminator', False, site(b, b.span['lo']),
-                  'expected one data write_all, one terminator write_all and no other use of the writer; found %d/%d/%d' % (len(data), len(nl), len(others)))
+                  'expected one data write_all, one terminator write_all and no other use of the writer; found %d/%d/%d%s' % (
+                      len(data), len(nl), len(others), ' (a closure of the function writes too: not judged)' if in_closures else ''), undecided=in_closures and not others)
     R.floor('TPL-4', 2)
 
 
